@@ -84,6 +84,11 @@ def run_flox(case: dict):
     kw = {}
     if case.get("expected") is not None:
         kw["expected_groups"] = np.array(case["expected"], dtype=case.get("label_dtype", "float64"))
+        if case.get("expected_as") == "pd.Index":       # the same request held in a pandas Index / a plain list
+            import pandas as pd
+            kw["expected_groups"] = pd.Index(kw["expected_groups"])
+        elif case.get("expected_as") == "list":
+            kw["expected_groups"] = kw["expected_groups"].tolist()
     for k in ("fill_value", "min_count", "engine", "method", "reindex", "axis", "isbin"):
         if case.get(k) is not None:
             kw[k] = unf(case[k]) if k == "fill_value" else case[k]
